@@ -9,6 +9,8 @@ from .core import _NOCONST
 from .interp import VEmptyList, VEmptySet, TOptObj, TDictRec, Interp, SpecUndef
 from . import frontend
 from . import jsonmodel as JM
+from . import jsontree
+from .jsontree import VJDict, VJSet, VJList, VWStr
 
 
 # =============================================================== operators
@@ -87,6 +89,14 @@ def binop(I, op, a, b):
         return I.ver.opaque_str("pct", VTuple([a, b]), I)
     if isinstance(op, ast.BitOr) and isinstance(a, VSet) and isinstance(b, VSet):
         raise Unsupported("set union")
+    if (isinstance(a, VJSet) and isinstance(b, (VJSet, VEmptySet))) or (isinstance(b, VJSet) and isinstance(a, VEmptySet)):
+        return jsontree.set_binop(I, op, a, b)
+    if isinstance(a, VEmptySet) and isinstance(b, VEmptySet) and isinstance(op, (ast.Sub, ast.BitAnd, ast.BitOr)):
+        return VEmptySet()
+    if isinstance(op, ast.Add) and (isinstance(a, VJList) or isinstance(b, VJList)):
+        xs, ys = jsontree.list_items_of(I, a), jsontree.list_items_of(I, b)
+        if xs is not None and ys is not None and not isinstance(a, VTuple) and not isinstance(b, VTuple):
+            return VJList(xs + ys)
     if I.spec:
         raise Unsupported("binop %s on %s,%s" % (type(op).__name__, type(a).__name__, type(b).__name__))
     I.raise_exc("TypeError", "unsupported operand types")
@@ -119,6 +129,17 @@ def contains(I, cont, x):
         cont = I.force(cont)
     if isinstance(cont, VEmptySet):
         return z3.BoolVal(False)
+    if isinstance(cont, VDRec):
+        c = const_of(x) if isinstance(x, VStr) else _NOCONST
+        if isinstance(c, str):
+            return cont.has(c)
+        if isinstance(x, VStr):
+            return z3.Or([z3.And(x.e == z3.StringVal(fn), cont.has(fn)) for fn in cont.t.fields] + [z3.BoolVal(False)])
+        return z3.BoolVal(False)
+    if isinstance(cont, VJDict):
+        return jsontree.contains(I, cont, x)
+    if isinstance(cont, (VJSet, VJList)):
+        return jsontree.set_contains(I, cont, x)
     if isinstance(cont, VMap) or isinstance(cont, VSet):
         if isinstance(x, VOpt) and not isinstance(cont.kt, TOpt) and x.t.inner == cont.kt:
             return z3.And(z3.Not(x.is_none()), z3.Select(cont.dom, x.t.dt.val(x.e)))
@@ -169,6 +190,11 @@ def contains(I, cont, x):
         ci = I.class_of(cont)
         if ci is not None and ci.find_method("__contains__"):
             return I.truth(I.call_method_ast(cont, "__contains__", [x], {}))
+        # protocol object declared with R.objtype(...) without a class: `x in obj` goes through its function-typed
+        # field `__contains__` (contract declared with R.funtype)
+        fld = cont.fields.get("__contains__")
+        if isinstance(fld, VFunc) and not I.spec:
+            return I.truth(I.call(fld, [x], {}))
     if I.spec:
         raise Unsupported("'in' on %s" % type(cont).__name__)
     I.raise_exc("TypeError", "argument is not iterable")
@@ -243,12 +269,26 @@ def subscript(I, o, k):
         if lt is None or not o.assigned_somewhere(c):
             raise Unsupported("locals()[%r]: unbound name without a declared local type" % c)
         return I.fresh_value(lt, "locals_" + c)
+    if isinstance(o, VDRec):
+        c = const_of(k) if isinstance(k, VStr) else _NOCONST
+        if not isinstance(c, str):
+            raise Unsupported("symbolic key into a dict-shaped record")
+        if c not in o.t.fields:
+            I.raise_exc("KeyError", c)
+        I.require_defined(o.has(c), "KeyError", c)
+        return o.field(c)
+    if isinstance(o, VJDict):
+        return jsontree.subscript(I, o, k)
+    if isinstance(o, VJList):
+        return jsontree.list_subscript(I, o, k)
     if isinstance(o, VDictRec):
         c = const_of(k) if isinstance(k, VStr) else _NOCONST
         if isinstance(c, str):
             if c in o.fields:
                 return o.fields[c]
             I.raise_exc("KeyError", c)
+        if not o.fields:
+            I.raise_exc("KeyError", "empty dict")
         raise Unsupported("symbolic key into literal dict")
     if isinstance(o, VRec) and getattr(o.t, "dictshape", False):
         c = const_of(k) if isinstance(k, VStr) else _NOCONST
@@ -287,6 +327,8 @@ def slice_(I, o, lo, hi):
     o = I.force(o) if not I.spec else o
     if isinstance(o, VEmptyList):
         return VEmptyList()
+    if isinstance(o, VJList):
+        return jsontree.list_slice(I, o, lo, hi)
     if isinstance(o, VSeq):
         n = o.n
 
@@ -331,8 +373,19 @@ def slice_(I, o, lo, hi):
 
 # --------------------------------------------------------------- map mutation primitives
 
+def check_literal_shape(I, v, t):
+    """a dict literal stored where a dict-shaped record is expected: its key set is an obligation"""
+    if isinstance(t, TDRec) and isinstance(v, VDictRec):
+        ok = drec_shape_ok(v, t)
+        I.path.prove(z3.BoolVal(ok), "%s/dict-shape:%s" % (I.cur_obl_prefix(), t.nm), "shape",
+                     where="keys %s == documented keys of %s" % (sorted(v.fields), t.nm))
+        if not ok:
+            raise PathEnd("dict literal of the wrong shape")
+
+
 def map_store(I, m, kk, v):
     """m[kk] = v  (kk z3 key expr)"""
+    check_literal_shape(I, v, m.vt)
     was = z3.Select(m.dom, kk)
     ve = unwrap(v, m.vt)
     I.ver.on_map_store(I, m, kk, ve, was)
@@ -388,6 +441,9 @@ def store_subscript(I, o, k, v):
     if isinstance(o, VMap):
         kk = unwrap(k, o.kt)
         map_store(I, o, kk, v)
+        if isinstance(v, VDictRec) and isinstance(o.vt, TMutRec):
+            v.origin = (o, kk)
+            v.adopt(o.vt)
         return
     if isinstance(o, VSeq):
         idx = norm_index(I, o, k)
@@ -395,9 +451,27 @@ def store_subscript(I, o, k, v):
         o.arr = z3.Store(o.arr, idx, unwrap(v, o.et))
         o.writeback()
         return
+    if isinstance(o, VJDict):
+        jsontree.store(I, o, k, v)
+        return
     if isinstance(o, VDictRec):
         c = const_of(k) if isinstance(k, VStr) else _NOCONST
         if isinstance(c, str):
+            if o.mt is not None:
+                # by-value record: fixed keys, typed fields, mutation written back to the owning container
+                if c not in o.mt.fields:
+                    raise Unsupported("new key %r stored into a %s record" % (c, o.mt.nm))
+                ft = o.mt.fields[c]
+                if isinstance(v, VDictRec) and isinstance(ft, TMutRec):
+                    v.origin = (o, c)
+                    v.adopt(ft)
+                elif isinstance(v, (VSeq, VMap, VSet)):
+                    v.origin = (o, c)
+                elif not isinstance(v, VDictRec):
+                    v = ft.wrap(unwrap(v, ft))
+                o.fields[c] = v
+                o.writeback()
+                return
             o.fields[c] = v
             return
         raise Unsupported("symbolic key store into literal dict")
@@ -415,6 +489,9 @@ def del_subscript(I, o, k):
         kk = unwrap(k, o.kt)
         I.require_defined(z3.Select(o.dom, kk), "KeyError", "del missing key")
         map_remove(I, o, kk)
+        return
+    if isinstance(o, VJDict):
+        jsontree.delete(I, o, k)
         return
     if isinstance(o, VDictRec):
         c = const_of(k)
@@ -528,7 +605,7 @@ MAP_METHODS = {"get", "pop", "setdefault", "keys", "values", "items", "update", 
                "move_to_end", "popitem"}
 SET_METHODS = {"add", "discard", "remove", "clear", "copy", "update", "isdisjoint"}
 STR_METHODS = {"lower", "upper", "strip", "split", "join", "startswith", "endswith", "format", "replace",
-               "encode", "lstrip", "rstrip", "isdigit", "splitlines", "find", "count"}
+               "encode", "lstrip", "rstrip", "isdigit", "isascii", "splitlines", "find", "count"}
 
 
 def get_attribute(I, o, name, default=_NOCONST):
@@ -583,8 +660,14 @@ def get_attribute(I, o, name, default=_NOCONST):
     elif isinstance(o, VMap):
         if name in MAP_METHODS:
             return VFunc("bmethod", name, selfv=o)
-    elif isinstance(o, VDictRec):
+    elif isinstance(o, (VDictRec, VJDict, VDRec)):
         if name in MAP_METHODS:
+            return VFunc("bmethod", name, selfv=o)
+    elif isinstance(o, VJList):
+        if name in SEQ_METHODS:
+            return VFunc("bmethod", name, selfv=o)
+    elif isinstance(o, VWStr):
+        if name in STR_METHODS:
             return VFunc("bmethod", name, selfv=o)
     elif isinstance(o, (VSet, VEmptySet)):
         if name in SET_METHODS:
@@ -643,6 +726,10 @@ def get_attribute(I, o, name, default=_NOCONST):
     elif isinstance(o, VFunc):
         if name == "__name__":
             return VStr(o.name)
+    if isinstance(o, VTuple) and getattr(o, "pylist", False):
+        raise Unsupported("method/attribute %s of a concrete python list of unencodable values" % name)
+    if isinstance(o, VClass) and name == "__name__":
+        return getattr(o, "unknown_name", None) or VStr(o.name)
     if default is not _NOCONST:
         return default
     if I.spec:
@@ -678,6 +765,13 @@ def call(I, f, args, kwargs, node=None):
                 not (I.ver.cur is not None and I.ver.cur.key == f.qual and not I.fn_stack[1:]):
             uf = I.ver.spec_name(I.ver.reg.opaques[f.qual])
             a = ([f.selfv] if f.selfv is not None else []) + list(args)
+            if kwargs or len(a) < len(f.node.args.posonlyargs + f.node.args.args + f.node.args.kwonlyargs):
+                # keyword / defaulted arguments: bind by the real signature so that the uninterpreted function always
+                # receives one value per declared parameter, in declaration order (positional, then keyword-only)
+                e0 = Env(None, f.module)
+                I.bind_params(f.node, a, dict(kwargs), e0, Env(None, f.module))
+                a = [e0.vars[p.arg] for p in f.node.args.posonlyargs + f.node.args.args + f.node.args.kwonlyargs]
+                kwargs = {}
             if uf.kind == "builtin":
                 return uf.impl(I, a, kwargs)
             saved = I.spec
@@ -688,6 +782,8 @@ def call(I, f, args, kwargs, node=None):
                 I.spec = saved
         if f.kind in ("ast", "lambda"):
             c = I.ver.contract_for_call(f, I)
+            if c is not None and any(isinstance(a, VNaN) for a in list(args) + list(kwargs.values())):
+                c = None      # contracts are stated over real-valued floats: a nan argument is outside their types -> inline
             if c is not None:
                 return call_contract(I, c, f, args, kwargs)
             if I.spec and f.kind == "ast":
@@ -758,6 +854,9 @@ def call_contract(I, c, f, args, kwargs):
         # a pure callee used inside a specification / comprehension: its result expression
         return I.eval_spec_value(c.pure_result, env)
     I.ver.apply_param_types(I, c, env)
+    if not getattr(c, "modifies_declared", True):
+        I.ver.note_assumption("modular call of %s whose contract declares no `modifies`: assumed to change nothing "
+                              "(declare modifies=[...] to have the frame verified)" % c.short)
     caller = I.cur_obl_prefix()
     for nm, src in c.requires:
         I.path.prove(I.eval_spec(src, env), "%s/call:%s/pre:%s" % (caller, c.short, nm), "call-pre", where=src)
@@ -920,9 +1019,19 @@ def bi_len(I, args, kw):
         return VInt(len(v.items))
     if isinstance(v, VDictRec):
         return VInt(len(v.fields))
+    if isinstance(v, VDRec):
+        return VInt(z3.Sum([z3.If(v.has(fn), 1, 0) for fn in v.t.fields] + [z3.IntVal(0)]))
+    if isinstance(v, VJDict):
+        return VInt(len(v.slots))
+    if isinstance(v, (VJSet, VJList)):
+        return VInt(len(v.items))
     if isinstance(v, VStr):
         return VInt(z3.Length(v.e))
     if isinstance(v, VMapView):
+        if isinstance(v.m, VJDict):
+            return VInt(len(v.m.slots))
+        if isinstance(v.m, VDictRec):
+            return VInt(len(v.m.fields))
         return VInt(v.m.card)
     if isinstance(v, VObj):
         ci = I.class_of(v)
@@ -950,6 +1059,12 @@ def bi_int(I, args, kw):
         return VInt(to_int(v))
     if isinstance(v, VReal):
         return VInt(real_to_int_trunc(v.e))
+    if isinstance(v, VStr) and isinstance(const_of(v), str) and not I.spec:
+        # a concrete string: decided by the host python (same CPython int() semantics), no solver involved
+        try:
+            return VInt(int(const_of(v)))
+        except ValueError:
+            I.raise_exc("ValueError", "invalid literal for int()")
     if isinstance(v, VStr):
         # int(str): uninterpreted predicate/function pair (int_parses, int_value) that agrees with the decimal
         # reading on plain digit strings; other accepted spellings (sign, blanks, underscores) stay abstract
@@ -980,6 +1095,34 @@ def int_parse_terms(I, e):
     return ip(e), iv(e)
 
 
+def isdigit_term(I, e):
+    """str.isdigit(): uninterpreted predicate with the trusted facts
+         isdigit(s) => s != ""                                    (python: empty string is not a digit string)
+         s in [0-9]+ => isdigit(s)                                (and int(s) parses: int_parse_terms)
+         isdigit((U+00B2))  and  not int_parses((U+00B2))          (SUPERSCRIPT TWO is a digit but not a decimal:
+                                                                   isdigit does NOT imply that int() accepts s)"""
+    f = z3.Function("str_isdigit", z3.StringSort(), z3.BoolSort())
+    if not getattr(I.path, "_isdigit_axiom", False):
+        I.path._isdigit_axiom = True
+        x = z3.String("idg_x")
+        ip, _ = int_parse_terms(I, z3.StringVal("0"))
+        ipf = ip.decl()
+        I.path.assume(z3.ForAll([x], z3.Implies(f(x), z3.Length(x) > 0), patterns=[f(x)]))
+        I.path.assume(z3.ForAll([x], z3.Implies(z3.InRe(x, z3.Plus(z3.Range("0", "9"))), f(x)), patterns=[f(x)]))
+        sup2 = z3.StringVal(chr(0xb2))
+        I.path.assume(z3.And(f(sup2), z3.Not(ipf(sup2))))
+        I.ver.note_assumption("str.isdigit(): uninterpreted except: false on '', true on [0-9]+, true on U+00B2 which int() rejects")
+    return f(e)
+
+
+def sp_nan(I, args, kw):
+    return VNaN()
+
+
+def sp_is_nan(I, args, kw):
+    return VBool(isinstance(args[0], VNaN))
+
+
 def sp_int_parses(I, args, kw):
     return VBool(int_parse_terms(I, args[0].e)[0])
 
@@ -994,6 +1137,8 @@ def bi_float(I, args, kw):
     v = I.force(args[0]) if not I.spec else args[0]
     if is_num(v):
         return VReal(to_real(v))
+    if isinstance(v, VNaN):
+        return v
     if isinstance(v, VStr):
         if I.spec:
             raise Unsupported("float(str) in spec")
@@ -1056,6 +1201,8 @@ def sp_fs_key(I, args, kw):
 
 def bi_abs(I, args, kw):
     v = I.force(args[0]) if not I.spec else args[0]
+    if isinstance(v, VNaN):
+        return v
     if isinstance(v, VReal):
         return VReal(z3.If(v.e >= 0, v.e, -v.e))
     if isinstance(v, (VInt, VBool)):
@@ -1122,13 +1269,21 @@ def _isinst(I, v, nm):
         return nm in ("bool", "int")
     if isinstance(v, VInt):
         return nm == "int"
-    if isinstance(v, VReal):
+    if isinstance(v, (VReal, VNaN)):
         return nm == "float"
     if isinstance(v, VStr):
         return nm in ("str",)
     if isinstance(v, VNone):
         return nm == "NoneType"
     if isinstance(v, VUn) and v.t.nm in STRLIKE:
+        return nm == "str"
+    if isinstance(v, (VJDict, VDRec)):
+        return nm in ("dict", "Mapping", "MutableMapping")
+    if isinstance(v, VJSet):
+        return nm == "set"
+    if isinstance(v, VJList):
+        return nm in ("list", "Sequence")
+    if isinstance(v, VWStr):
         return nm == "str"
     if isinstance(v, (VMap, VDictRec)):
         return nm in ("dict", "Mapping", "MutableMapping", "OrderedDict") if not (nm == "OrderedDict" and getattr(v, "order", None) is None) else False
@@ -1137,6 +1292,8 @@ def _isinst(I, v, nm):
             return nm == "deque"
         return nm in ("list", "Sequence")
     if isinstance(v, VTuple):
+        if getattr(v, "pylist", False):
+            return nm in ("list", "Sequence")
         return nm in ("tuple", "Sequence")
     if isinstance(v, (VSet, VEmptySet)):
         return nm in ("set",)
@@ -1209,6 +1366,12 @@ def bi_list(I, args, kw):
 
 
 def to_seq(I, v):
+    if isinstance(v, VJList):
+        return VJList(v.items)
+    if isinstance(v, VMapView) and isinstance(v.m, VJDict):
+        return VJList(jsontree.view_items(I, v))
+    if isinstance(v, VJDict):
+        return VJList([k for k, _ in v.slots])
     if isinstance(v, VSeq):
         return VSeq(v.arr, v.n, v.et, "list")
     if isinstance(v, VEmptyList):
@@ -1289,6 +1452,10 @@ def bi_dict(I, args, kw):
     if not args:
         return VDictRec(dict(kw))
     v = I.force(args[0])
+    if isinstance(v, VDRec):
+        return v
+    if isinstance(v, VJDict):
+        return VJDict(v.slots)
     if isinstance(v, VDictRec):
         d = VDictRec(dict(v.fields))
         d.fields.update(kw)
@@ -1310,6 +1477,9 @@ def bi_set(I, args, kw):
     v = I.force(args[0])
     if isinstance(v, VSet):
         return VSet(v.dom, v.card, v.kt)
+    js = jsontree.to_set(I, v)
+    if js is not None:
+        return js
     if isinstance(v, VSeq):
         p = I.path
         s = I.fresh_value(TSet(v.et), "setof")
@@ -1333,12 +1503,25 @@ def bi_deque(I, args, kw):
     return v
 
 
+def bi_ordereddict(I, args, kw):
+    """collections.OrderedDict() without arguments: an empty dict literal; it takes its typed insertion-ordered
+    shape (empty_map of `OrderedDict[K, V]`) when stored into a field / local declared with that type.  An
+    order-dependent method on a value that was never given such a type stays `unsupported` (dictrec_method)."""
+    if args or kw:
+        raise Unsupported("OrderedDict(<initial content>)")
+    return VDictRec({})
+
+
 def bi_sorted(I, args, kw):
     v = I.force(args[0])
     key = kw.get("key")
     rev = kw.get("reverse")
     if rev is not None and const_of(rev) is not False:
         raise Unsupported("sorted(reverse=...)")
+    if key is None and not I.spec:
+        r = jsontree.sorted_of(I, v)       # python-side JSON model: exact sort by forking on comparisons
+        if r is not None:
+            return r
     if isinstance(v, (VMapView, VMap)) and key is None:
         view = v if isinstance(v, VMapView) else VMapView(v, "keys")
         if view.kind == "keys" and isinstance(view.m, VMap):
@@ -1351,8 +1534,9 @@ def bi_sorted(I, args, kw):
     return sort_seq(I, v, key)
 
 
-def sort_seq(I, v, key):
-    """trusted contract of sorted()/list.sort(): a stable permutation ordered by key"""
+def sort_seq(I, v, key, reverse=False):
+    """trusted contract of sorted()/list.sort(): a stable permutation ordered by key (reverse=True: descending
+    keys, elements with equal keys keep their original relative order)"""
     p = I.path
     if isinstance(v, VEmptyList):
         return v
@@ -1385,7 +1569,7 @@ def sort_seq(I, v, key):
         finally:
             I.spec = saved
     ki, kj = keyof(z3.Select(res.arr, i)), keyof(z3.Select(res.arr, j))
-    le = I.lt(ki, kj, False)
+    le = I.lt(kj, ki, False) if reverse else I.lt(ki, kj, False)
     keq = I.eq(ki, kj)
     # `sort_facts=False` on a contract: the order produced by sorted()/sort() is irrelevant to its clauses, only the
     # permutation facts are assumed (fewer assumptions: sound; keeps string-ordering atoms out of the goals)
@@ -1445,6 +1629,11 @@ def bi_sum(I, args, kw):
         for x in v.items:
             cur = binop(I, ast.Add(), cur, x)
         return cur
+    if isinstance(v, VSeq) and isinstance(const_of(VInt(v.n)), int) and const_of(VInt(v.n)) <= 64:
+        acc = VInt(0)
+        for j in range(const_of(VInt(v.n))):
+            acc = binop(I, ast.Add(), acc, v.get(z3.IntVal(j)))
+        return acc
     if isinstance(v, VSeq) and (v.et is TInt or v.et is TReal):
         t = TList(v.et)
         f = z3.Function("seq_sum_" + v.et.name, t.sort(), v.et.sort())
@@ -1507,6 +1696,13 @@ def bi_type(I, args, kw):
         ci = I.class_of(v)
         if ci:
             return VClass(ci.name, ci.node, ci.module)
+    if isinstance(v, VExc):
+        # class of a caught exception; for an exception raised by a contract/trusted model (`any_subclass`) the
+        # concrete class is unknown: its __name__ is an arbitrary string
+        c = VClass(v.cls, exc_base=EXC_PARENT.get(v.cls) or "BaseException")
+        if v.any_subclass:
+            c.unknown_name = VStr(I.path.fresh("exc_class_name", z3.StringSort()))
+        return c
     raise Unsupported("type()")
 
 
@@ -1687,10 +1883,23 @@ def sp_enc_eq(I, args, kw):
     return VBool(unwrap(a, t) == unwrap(b, t))
 
 
+def sp_opos(I, args, kw):
+    """opos(d, k) (spec only): position of key k in the insertion order of the ordered map d, i.e. the index i
+    with list(d.keys())[i] == k.  Defined for k in d (the map's type invariant `assume_wf_order` gives
+    0 <= opos < len(d) and keys[opos] == k then); an unconstrained integer otherwise."""
+    m, k = args
+    if not isinstance(m, VMap) or m.order is None or getattr(m, "pos", None) is None:
+        raise Unsupported("opos of a value that is not an insertion-ordered map")
+    return VInt(m.pos(unwrap(k, m.kt)))
+
+
 BUILTIN_FUNCS = {
+    "opos": sp_opos,
     "choose": gh_choose, "map_set_all": gh_map_set_all,
     "map_put": sp_map_put, "map_del": sp_map_del, "perm_of": sp_perm_of, "enc_eq": sp_enc_eq,
+    "is_str": (lambda I, args, kw: VBool(isinstance(I.force(args[0]) if not I.spec else args[0], VStr))),
     "lemma_pigeonhole": gh_lemma_pigeonhole, "int_parses": sp_int_parses, "int_value": sp_int_value,
+    "nan": sp_nan, "is_nan": sp_is_nan,
     "len": bi_len, "int": bi_int, "float": bi_float, "bool": bi_bool, "str": bi_str, "abs": bi_abs,
     "min": bi_min, "max": bi_max, "isinstance": bi_isinstance, "hasattr": bi_hasattr, "getattr": bi_getattr,
     "setattr": bi_setattr, "callable": bi_callable, "list": bi_list, "tuple": bi_tuple, "dict": bi_dict,
@@ -1701,8 +1910,12 @@ BUILTIN_FUNCS = {
     "fs_name_of": lambda I, a, k: __import__("pyvc.fsmodel", fromlist=["x"]).sp_fs_name_of(I, a, k),
     "fs_temp_name": lambda I, a, k: __import__("pyvc.fsmodel", fromlist=["x"]).sp_fs_temp_name(I, a, k),
 }
+BUILTIN_FUNCS.update(jsontree.SPEC_FUNCS)
+from . import ext_listing as _ext_listing
+BUILTIN_FUNCS.update(_ext_listing.SPEC_FUNCS)
 BUILTIN_TYPES = {"int": bi_int, "float": bi_float, "bool": bi_bool, "str": bi_str, "list": bi_list,
-                 "tuple": bi_tuple, "dict": bi_dict, "set": bi_set, "object": bi_object, "deque": bi_deque}
+                 "tuple": bi_tuple, "dict": bi_dict, "set": bi_set, "object": bi_object, "deque": bi_deque,
+                 "OrderedDict": bi_ordereddict}
 TYPE_NAMES = {"int", "float", "bool", "str", "list", "tuple", "dict", "set", "object", "NoneType", "bytes",
               "Mapping", "MutableMapping", "Sequence", "deque", "OrderedDict", "frozenset"}
 
@@ -1755,6 +1968,14 @@ def call_bmethod(I, o, name, args, kw):
             return VEmptyList()
     if isinstance(o, VMap):
         return map_method(I, o, name, args, kw)
+    if isinstance(o, VDRec):
+        return drec_method(I, o, name, args, kw)
+    if isinstance(o, VJDict):
+        return jsontree.method(I, o, name, args, kw)
+    if isinstance(o, VJList):
+        return jsontree.list_method(I, o, name, args, kw)
+    if isinstance(o, VWStr):
+        return jsontree.w_method(I, o, name, args, kw)
     if isinstance(o, VDictRec):
         return dictrec_method(I, o, name, args, kw)
     if isinstance(o, VRec) and getattr(o.t, "dictshape", False) and name == "get":
@@ -1808,6 +2029,7 @@ def seq_method(I, o, name, args, kw):
     p = I.path
     i = z3.Int("sm_i")
     if name == "append":
+        check_literal_shape(I, args[0], o.et)
         o.arr = z3.Store(o.arr, o.n, unwrap(resolve_optionals(I, args[0], o.et), o.et))
         o.n = z3.simplify(o.n + 1)
         o.writeback()
@@ -1873,7 +2095,11 @@ def seq_method(I, o, name, args, kw):
         o.writeback()
         return VNone()
     if name == "sort":
-        r = sort_seq(I, VSeq(o.arr, o.n, o.et, "list"), kw.get("key"))
+        rev = kw.get("reverse")
+        rev = False if rev is None else const_of(rev)
+        if not isinstance(rev, bool):
+            raise Unsupported("list.sort(reverse=<symbolic>)")
+        r = sort_seq(I, VSeq(o.arr, o.n, o.et, "list"), kw.get("key"), reverse=rev)
         o.arr, o.n = r.arr, r.n
         o.writeback()
         return VNone()
@@ -1906,6 +2132,8 @@ def map_get(I, m, k, default):
         return default
     # try a value level ite first; fork when the default has a different shape
     try:
+        if isinstance(m.vt, TMutRec) and not I.spec:
+            raise TypeError("record alias: fork")
         if isinstance(default, VNone):
             t = m.vt if isinstance(m.vt, TOpt) else TOpt(m.vt)
             r = t.wrap(z3.If(present, unwrap(val, t), t.none()))
@@ -1968,6 +2196,15 @@ def map_method(I, m, name, args, kw):
             for k2, v2 in other.fields.items():
                 map_store(I, m, z3.StringVal(k2), v2)
             return VNone()
+        if isinstance(other, VMap) and other.kt == m.kt and other.vt == m.vt and const_of(VInt(m.card)) == 0 \
+                and (m.order is None or other.order is not None) and not I.ver._aggs_for(m):
+            # update of an *empty* dict (e.g. right after .clear()): the result is a copy of the argument
+            m.dom, m.val, m.card = other.dom, other.val, other.card
+            if m.order is not None:
+                m.order.arr, m.order.n = other.order.arr, other.order.n
+                m.pos = getattr(other, "pos", None)
+            m.writeback()
+            return VNone()
         raise Unsupported("dict.update with symbolic map")
     if name == "move_to_end":
         if m.order is None:
@@ -2002,6 +2239,44 @@ def map_method(I, m, name, args, kw):
     raise Unsupported("dict.%s" % name)
 
 
+def drec_method(I, d, name, args, kw):
+    """methods of a dict-shaped record (read-only dict protocol)"""
+    if name == "get":
+        k = args[0] if I.spec else I.force(args[0])
+        c = const_of(k) if isinstance(k, VStr) else _NOCONST
+        default = args[1] if len(args) > 1 else kw.get("default", VNone())
+        if not isinstance(c, str):
+            if not isinstance(k, VStr):
+                return default
+            raise Unsupported("symbolic key lookup in a dict-shaped record")
+        if c not in d.t.fields:
+            return default
+        val = d.field(c)
+        if c in d.t.required:
+            return val
+        ft = d.t.fields[c]
+        if isinstance(default, VDictRec) and not default.fields and isinstance(ft, TMap):
+            default = I.empty_map(ft)
+        if isinstance(default, VEmptyList) and isinstance(ft, TList):
+            default = VSeq(z3.K(z3.IntSort(), I.default_of(ft.elem)), z3.IntVal(0), ft.elem, ft.kind)
+        present = d.has(c)
+        try:
+            if isinstance(default, VNone):
+                t = ft if isinstance(ft, TOpt) else TOpt(ft)
+                return t.wrap(z3.If(present, unwrap(val, t), t.none()))
+            return I.ite(present, val, default)
+        except (Unsupported, TypeError):
+            pass
+        if I.spec:
+            raise Unsupported("dict-shaped record .get with an incompatible default in a specification")
+        if I.path.branch(present):
+            return val
+        return default
+    if name == "copy":
+        return d
+    raise Unsupported("dict-shaped record .%s" % name)
+
+
 def dictrec_method(I, d, name, args, kw):
     if name == "get":
         k = I.force(args[0])
@@ -2009,9 +2284,11 @@ def dictrec_method(I, d, name, args, kw):
         default = args[1] if len(args) > 1 else VNone()
         if isinstance(c, str):
             return d.fields.get(c, default)
-        if not isinstance(k, VStr):
-            return default
         if not d.fields:
+            return default
+        if isinstance(k, VWStr):
+            raise Unsupported("abstract key lookup in a literal dict")
+        if not isinstance(k, VStr):
             return default
         # symbolic key into a literal table of scalars: if-then-else chain over the (distinct) literal keys
         try:
@@ -2032,13 +2309,13 @@ def dictrec_method(I, d, name, args, kw):
             return VNone()
         raise Unsupported("literal dict update with symbolic map")
     if name == "pop":
-        c = const_of(args[0])
-        if isinstance(c, str):
-            if c in d.fields:
+        c = const_of(args[0]) if not jsontree.is_j(args[0]) else _NOCONST
+        if isinstance(c, str) or not d.fields:
+            if isinstance(c, str) and c in d.fields:
                 return d.fields.pop(c)
             if len(args) > 1:
                 return args[1]
-            I.raise_exc("KeyError", c)
+            I.raise_exc("KeyError", str(c))
     if name == "setdefault":
         c = const_of(args[0])
         if isinstance(c, str):
@@ -2152,8 +2429,35 @@ def str_method(I, s, name, args, kw):
         return VStr(z3.Replace(s.e, args[0].e, args[1].e)) if False else I.ver.opaque_str("replace", VTuple([s] + list(args)), I)
     if name == "find":
         return VInt(z3.IndexOf(s.e, args[0].e, 0))
+    if name == "count" and len(args) == 1 and isinstance(args[0], VStr):
+        # number of non-overlapping occurrences: an uninterpreted function, only 0 <= count <= len(s) is assumed
+        f = z3.Function("str_count", z3.StringSort(), z3.StringSort(), z3.IntSort())
+        r = f(s.e, args[0].e)
+        I.path.assume(z3.And(r >= 0, r <= z3.Length(s.e)))
+        I.ver.note_assumption("str.count is uninterpreted (0 <= count <= len)")
+        return VInt(r)
+    if name == "isascii":
+        if isinstance(const_of(s), str):
+            return VBool(const_of(s).isascii())
+        fa = z3.Function("str_isascii", z3.StringSort(), z3.BoolSort())
+        fd = isdigit_term(I, s.e).decl()
+        if not getattr(I.path, "_isascii_axiom", False):
+            I.path._isascii_axiom = True
+            x = z3.String("ias_x")
+            ipf = int_parse_terms(I, z3.StringVal("0"))[0].decl()
+            # trusted: an ASCII string that isdigit() accepts is in [0-9]+, which int() parses
+            I.path.assume(z3.ForAll([x], z3.Implies(z3.And(fa(x), fd(x)), z3.And(ipf(x), z3.InRe(x, z3.Plus(z3.Range("0", "9"))))),
+                                    patterns=[z3.MultiPattern(fa(x), fd(x))]))
+            I.ver.note_assumption("str.isascii(): uninterpreted except: isascii(s) and isdigit(s) => s in [0-9]+ (so int(s) parses)")
+        return VBool(fa(s.e))
+    if name == "isdigit":
+        if isinstance(const_of(s), str):
+            return VBool(const_of(s).isdigit())     # concrete string: host python decides
+        return VBool(isdigit_term(I, s.e))
     if name == "join":
         xs = I.force(args[0])
+        if isinstance(xs, (VTuple, VJList)) and any(isinstance(x, VWStr) for x in xs.items):
+            return jsontree.w_join(I, s, xs.items)
         if isinstance(xs, VTuple):
             if not xs.items:
                 return VStr("")
@@ -2263,8 +2567,21 @@ def comprehension(I, n, env):
     p.assume(z3.ForAll([j, j2], z3.Implies(z3.And(0 <= j, j < j2, j2 < res.n), sel(j) < sel(j2)),
                        patterns=[z3.MultiPattern(sel(j), sel(j2))]))
     hit_pats = [rank(i)]
-    if base.arr is not None and not z3.is_quantifier(base.arr):
+    if base.arr is not None and z3.is_const(base.arr) and base.arr.decl().kind() == z3.Z3_OP_UNINTERPRETED:
+        # (a Store/Lambda/ite-valued array is not a legal trigger: "'if' cannot be used in patterns")
         hit_pats.append(z3.Select(base.arr, i))
+    elif base.arr is not None:
+        # source is itself a mapped list (lambda array): trigger on the reads of the underlying plain arrays
+        seen, stack = set(), [z3.simplify(z3.Select(base.arr, i))]
+        while stack:
+            x = stack.pop()
+            if x.get_id() in seen or not z3.is_app(x):
+                continue
+            seen.add(x.get_id())
+            if z3.is_select(x) and x.arg(1).eq(i) and z3.is_const(x.arg(0)) and \
+                    x.arg(0).decl().kind() == z3.Z3_OP_UNINTERPRETED:
+                hit_pats.append(x)
+            stack.extend(x.children())
     p.assume(z3.ForAll([i], z3.Implies(z3.And(0 <= i, i < base.n, cond),
                                       z3.And(0 <= rank(i), rank(i) < res.n, sel(rank(i)) == i,
                                              z3.Select(res.arr, rank(i)) == elt_e)),
@@ -2437,6 +2754,12 @@ def _iter_protocol(I, it):
         return ("concrete", [VStr(k) for k in it.fields])
     if isinstance(it, VMapView) and isinstance(it.m, VDictRec):
         return ("concrete", to_seq_items(I, it))
+    if isinstance(it, VMapView) and isinstance(it.m, VJDict):
+        return ("concrete", jsontree.view_items(I, it))     # insertion order, as python dicts
+    if isinstance(it, VJDict):
+        return ("concrete", [k for k, _ in it.slots])
+    if isinstance(it, VJList):
+        return ("concrete", list(it.items))
     if isinstance(it, VSeq):
         snap = VSeq(it.arr, it.n, it.et, it.kind)
         return ("seq", snap.n, lambda i: snap.get(i))
@@ -2620,9 +2943,9 @@ def _for_map_inv(I, s, env, spec, m, kind):
             if kind == "keys":
                 x = kt.wrap(kk)
             elif kind == "values":
-                x = m.vt.wrap(z3.Select(val0, kk))
+                x = m.get(kk)       # the value as it is now (origin kept: mutations are written back)
             else:
-                x = VTuple([kt.wrap(kk), m.vt.wrap(z3.Select(val0, kk))])
+                x = VTuple([kt.wrap(kk), m.get(kk)])
             I.assign(s.target, x, env)
             try:
                 I.exec_block(s.body, env)
